@@ -606,3 +606,82 @@ theorem queue_conserved (c : Cfg) : ∀ (sched : List (Nat × Nat)) (d : FSt),
     rw [← List.append_assoc, h1, List.append_assoc, h2, List.append_assoc]
 
 end Chokan.Fine
+
+/-! ### what a step can do to the running dictionary and what a conversion computes -/
+
+namespace Chokan.Fine
+open Chokan.Conc Chokan.Gen.Server Chokan.Server Chokan.Kkc Chokan.Dic
+
+theorem effect_dict (c : Cfg) (e : Ev) (l : Local) (s : State) :
+    (effect c e l s).2.dict = s.dict ∨ ∃ en, l.entry = some en ∧ e = .act .mapInsert ∧ (effect c e l s).2.dict = (mergeEntry c s.dict en).getD s.dict := by
+  cases e with
+  | acq k => left; cases hr : l.req <;> simp [effect, hr]
+  | rel k => left; cases hr : l.req <;> simp [effect, hr]
+  | respond => left; cases hr : l.req <;> simp [effect, hr]
+  | recv ch => left; cases ch <;> cases hr : l.req <;> simp [effect, hr]
+  | send ch =>
+    left
+    cases ch with
+    | tick => cases hr : l.req <;> simp [effect, hr]
+    | entry =>
+      cases hr : l.req with
+      | conv a b => simp [effect, hr]
+      | other => simp [effect, hr]
+      | confirm a b d => cases he : l.entry <;> simp [effect, hr, he]
+      | register a b d => cases he : regEntry c a b d <;> simp [effect, hr, he]
+  | act a =>
+    by_cases hm : a = .mapInsert
+    · subst hm
+      cases hr : l.req with
+      | other =>
+        cases he : l.entry with
+        | none => left; simp [effect, hr, he]
+        | some en => right; exact ⟨en, rfl, rfl, by simp [effect, hr, he]⟩
+      | conv a b => left; simp [effect, hr]
+      | confirm a b d => left; simp [effect, hr]
+      | register a b d => left; simp [effect, hr]
+    · left
+      cases a <;> first | exact absurd rfl hm | skip
+      all_goals
+        cases hr : l.req <;> simp only [effect, hr]
+        all_goals first
+          | rfl
+          | (simp only [save]; split <;> rfl)
+          | (split <;> first | rfl | (split <;> rfl))
+
+/-- **Under every interleaving the running dictionary changes only by whole entries**: one step of any thread leaves it
+alone or merges *all* conjugated forms of one entry (the entry the updater took from the queue). -/
+theorem fstep_dict (c : Cfg) (d : FSt) (ik : Nat × Nat) :
+    (fstep c d ik).data.dict = d.data.dict ∨
+    ∃ en, (fstep c d ik).data.dict = (mergeEntry c d.data.dict en).getD d.data.dict := by
+  unfold fstep
+  cases hh : headEv d.st ik.1 with
+  | none => left; rfl
+  | some e =>
+    cases hl : d.locals[ik.1]? with
+    | none => left; rfl
+    | some l =>
+      simp only
+      rcases effect_dict c e l d.data with h | ⟨en, _, _, h⟩
+      · exact Or.inl h
+      · exact Or.inr ⟨en, h⟩
+
+/-- **A conversion's answer is the sequential answer for the state of its compute event**: what the thread computes is
+`getCandidates` on the dictionary and the learned counts as they are at that step — every update made before it, none
+made after it. -/
+theorem fstep_compute (c : Cfg) (d : FSt) (i k : Nat) (l : Local) (ctx : Ctx) (input : Str)
+    (hh : headEv d.st i = some (.act .compute)) (hl : d.locals[i]? = some l) (hr : l.req = .conv ctx input) :
+    ∃ l', (fstep c d (i, k)).locals[i]? = some l' ∧
+      l'.cands = (getCandidates c.tables input d.data.dict ctx (toKkcFreq d.data.freq) c.nCandidates c.fuel).getD [] ∧
+      (fstep c d (i, k)).data = d.data := by
+  have hlt : i < d.locals.length := (List.getElem?_eq_some_iff.1 hl).1
+  refine ⟨(effect c (.act .compute) l d.data).1, ?_, ?_, ?_⟩
+  · unfold fstep
+    simp only [hh, hl]
+    rw [List.getElem?_set]; simp [hlt]
+  · unfold effect; rw [hr]
+  · unfold fstep
+    simp only [hh, hl]
+    unfold effect; rw [hr]
+
+end Chokan.Fine
